@@ -625,6 +625,11 @@ fn c15_owns(d: &Disc, out: &StepOut, t: &Trace) -> bool {
         || d.line().map_or(false, |l| l.iter().any(|x| t.renamed_nicks.iter().any(|n| x == n || x.ends_with(n.as_str()) || x.starts_with(&format!("{}!", n)))));
     match d {
         Disc::Panic { .. } | Disc::UnexpectedClose { .. } => ["WALLOPS", "PRIVMSG", "NOTICE", "JOIN", "INVITE", "KICK", "MODE#", "PART", "TOPIC"].contains(&out.ctx.as_str()),
+        // something a renamed user must get (or a reply that names a renamed nick) is missing or
+        // wrong; a surplus copy that merely lands on a renamed user's connection is not C15's
+        Disc::Extra { line, .. } if line[0] != "S" => {
+            line.iter().skip(2).any(|x| t.renamed_nicks.contains(x)) && ["WALLOPS", "PRIVMSG", "NOTICE", "JOIN", "INVITE", "KICK", "MODE#"].contains(&out.ctx.as_str())
+        }
         _ => about_renamed && ["WALLOPS", "PRIVMSG", "NOTICE", "JOIN", "INVITE", "KICK", "MODE#"].contains(&out.ctx.as_str()),
     }
 }
@@ -898,8 +903,9 @@ fn c02_owns(d: &Disc, out: &StepOut, _t: &Trace) -> bool {
         Disc::Framing { .. } | Disc::Malformed { .. } => false,
         Disc::Missing { line, .. } | Disc::Extra { line, .. } => {
             if line[0] != "S" {
-                // relayed lines: wrong attribution or effects of a connection that is not registered
-                return reg_ctx || out.actor.map_or(false, |_| true) && out.ctx != "FINAL";
+                // relayed lines around registration steps: wrong attribution, or effects of a
+                // connection that is not registered
+                return reg_ctx;
             }
             reg_ctx && ["001", "433", "451", "303", "311", "318", "353", "352", "319", "251", "255", "265", "266", "302", "401"].contains(&line[1].as_str())
         }
